@@ -50,12 +50,18 @@ def body(ctx):
             runs.append((mode, spec, scen.run(spec, mode), None))
     for a in B32:
         for b in (0, 0x80000000, 0xFFFFFFFF):
-            spec = dict(seed=1, maxdata=4096, rid='plus', frag='bytes1', ops=[dict(api='stat', path='/s', st=[a, b, a ^ b])])
+            spec = dict(seed=1, maxdata=4096, rid='plus', frag='bytes1', ops=[dict(api='stat', path=('/s', '/é', '/файл')[(a + b) % 3], path_bytes=bool((a ^ b) & 1), st=[a, b, a ^ b])])
             runs.append(('sync', spec, scen.run(spec, 'sync'), None))
             runs.append(('async', spec, scen.run(spec, 'async'), None))
     # an operation aborted in the middle of its reply (the device falls silent), then the same kind of operation again on the same connection
     for k2, frag in enumerate(['whole', 'random', 'bytes1']):
         for mode in ('sync', 'async'):
+            for between in ([], [dict(api='reconnect')], [dict(api='reconnect', close_first=False)]):
+                for bud in (1, 2):
+                    sp2 = dict(seed=170 + k2, maxdata=4096, rid='plus', frag=frag, ops=[dict(api='stat', path='/x1', st=[7, 8, 9], budget=bud, read_timeout_s=1.0)] + [dict(b) for b in between] +
+                               [dict(api='stat', path='/x2', st=[10, 11, 12]), dict(api='list', path='/y1', entries=[[b'q'.hex(), 1, 2, 3]], budget=bud, read_timeout_s=1.0)] + [dict(b) for b in between] +
+                               [dict(api='list', path='/y2', entries=[[b'r'.hex(), 4, 5, 6], [b's'.hex(), 7, 8, 9]])])
+                    runs.append((mode, sp2, scen.run(sp2, mode), None))
             spec = dict(seed=70 + k2, maxdata=4096, rid='plus', frag=frag, ops=[
                 dict(api='stat', path='/s1', st=[0x41414141, 0x42424242, 0x43434343], cuts=[7], budget=3, read_timeout_s=1.0),
                 dict(api='stat', path='/s2', st=[1, 2, 3]),
@@ -70,7 +76,7 @@ def body(ctx):
             name = bytes(rng.choice([0, 0x2F, 0xFF, 0xC3, 0x80, 0x41, rng.randrange(256)]) for _ in range(rng.choice([1, 2, 8, 255])))
             ents.append([name.hex(), rng.choice(B32 + [rng.randrange(2 ** 32)]), rng.choice(B32 + [rng.randrange(2 ** 32)]), rng.choice(B32 + [rng.randrange(2 ** 32)])])
         spec = dict(seed=ctx.seed * 17 + j, maxdata=rng.choice([4096, 65536]), rid='random', frag=rng.choice(['whole', 'random', 'empty', 'bytes1'] if n < 50 else ['whole', 'random']),
-                    ops=[dict(api='list', path='/d%d' % j, entries=ents, cuts=rng.choice(['whole', 'random', 'small', 'bytes1'] if n < 50 else ['whole', 'random']))])
+                    ops=[dict(api='list', path=rng.choice(['/d%d' % j, '/sdcard/é%d' % j, '/каталог']), path_bytes=rng.random() < 0.3, entries=ents, cuts=rng.choice(['whole', 'random', 'small', 'bytes1'] if n < 50 else ['whole', 'random']))])
         mode = ('sync', 'async')[j % 2]
         runs.append((mode, spec, scen.run(spec, mode), None))
     judge(ctx, runs, 'stat at every offset, boundary values, random listings', only=('list', 'stat'))
